@@ -8,16 +8,18 @@ import (
 
 // Alphabets are the focused byte sets of the byte-hole input model; index 0 is the full byte range.
 var Alphabets = []string{
-	0: "",
-	1: "019.eExX+-af",                                 // numbers
-	2: "'\"\\nt\nx",                                   // strings and escapes
-	3: "az_$`/\n; ",                                   // names, quoted names, comments
-	4: "=!~<>|()[]",                                   // operators and brackets
-	5: ";'\"`/\\\na1= ",                               // statement splitting
-	6: "a1 \t\n.,-+*/%&#\x00\x80\xc2\xa0\xe2\x80\xa8", // layout, odd bytes, multi-byte white space
-	8: "'\\t\na",                                      // two string literals with escapes on two lines
-	7: ";()[]|a1 ,'",                                  // statement splitting next to brackets
-	9: "'\\\xc3\xa9a`",                                // escapes in front of multi-byte characters
+	0:  "",
+	1:  "019.eExX+-af",                                 // numbers
+	2:  "'\"\\nt\nx",                                   // strings and escapes
+	3:  "az_$`/\n; ",                                   // names, quoted names, comments
+	4:  "=!~<>|()[]",                                   // operators and brackets
+	5:  ";'\"`/\\\na1= ",                               // statement splitting
+	11: ";'/\r\n a",                                    // lone CR inside strings and comments
+	6:  "a1 \t\n.,-+*/%&#\x00\x80\xc2\xa0\xe2\x80\xa8", // layout, odd bytes, multi-byte white space
+	8:  "'\\t\na",                                      // two string literals with escapes on two lines
+	7:  ";()[]|a1 ,'",                                  // statement splitting next to brackets
+	10: "1e+-.;x ",                                     // numbers with exponents next to semicolons
+	9:  "'\\\xc3\xa9a`",                                // escapes in front of multi-byte characters
 }
 
 // GenBytes returns n arbitrary bytes over alphabet number alpha.
